@@ -48,6 +48,11 @@ std::string run_case(Src& s, CaseInfo& ci)
 {
   GenOpts o;
   o.max_rules = 10;
+  // mostly relocation-free compilations (as with the stock 1 MiB buffers); sometimes buffers so small
+  // that the shared automaton tables move while rules are being added (C19 owns that axis, here it
+  // only varies the company a rule is compiled in)
+  static const uint32_t ARENA[] = {262144, 8192, 1024};
+  ys_set_arena_initial_size(ARENA[s.weighted({70, 18, 12})]);
   GSet gs = gen_ruleset(s, o);
   size_t n = gs.rules.size();
   std::vector<bytes> bufs;
